@@ -599,3 +599,81 @@ def readonly_scenario(st, scen):
                    '%s left the store different: %s %s' % (scen, '; '.join(v.get('problems') or []), changed), scen, {'problems': v.get('problems'), 'inode_or_mtime_changed': changed})
     st.sample({'scenario': scen, 'result': t['result'], 'syscalls': len(win), 'mutating_syscalls_on_store': len(muts)})
     shutil.rmtree(os.path.join(st.work, scen), ignore_errors=True)
+
+
+# ==============================================================================================
+PATH_CALLS = {'openat', 'open', 'creat', 'renameat', 'renameat2', 'rename', 'unlinkat', 'unlink', 'mkdirat', 'mkdir', 'rmdir', 'linkat', 'link',
+              'symlinkat', 'symlink', 'fchmodat', 'chmod', 'fchownat', 'chown', 'truncate', 'utimensat', 'execve', 'mknodat', 'mknod'}
+
+
+def c03_syscall_stage(ctx):
+    import re
+    st = Stage('C03', 'syscalls', 'the store entry points are executed with the hostile name corpus (and a control group of valid names) in a driver process under strace; '
+               'each call is delimited by marker syscalls; between the markers every path-taking syscall that creates, modifies, renames or deletes something, or opens a path '
+               'ending in .user/.admin, must name <base>/<valid name>.user|.admin or an entry of <base>/.tmp; anything else (inside or outside the sandbox root) is a violation. '
+               'Non-trivial: every delimited call with a hostile name; distinct by (name, operation)', ctx)
+    root = os.path.join(st.work, 'root')
+    out = os.path.join(st.work, 'cases.json')
+    logp = os.path.join(st.work, 'trace')
+    env = dict(st.env())
+    rc, o = sc.strace_run([st.hx, 'c03drv', root, out], logp, env=env, strsize=6000, timeout=600)
+    if not os.path.exists(out):
+        st.r['harness_error'] = 'c03drv produced no result: rc=%s %s' % (rc, o[-500:])
+        return st.done()
+    info = json.load(open(out))
+    base = os.path.normpath(info['base'])
+    cases = {c['Case']: c for c in info['cases']}
+    # find the op thread
+    path, sl, killed, bi, ei, status = sc.find_op_thread(logp)
+    if path is None:
+        st.r['harness_error'] = 'no marker found in the trace'
+        return st.done()
+    valid_re = re.compile(r'^[A-Za-z0-9][-_.@A-Za-z0-9]*\.(user|admin)$')
+
+    def allowed(p):
+        p = os.path.normpath(p)
+        d, f = os.path.split(p)
+        if p == os.path.join(base, '.tmp') or d == os.path.join(base, '.tmp'):
+            return True
+        return d == base and bool(valid_re.match(f))
+    cur = None
+    nseg = 0
+    for s in sl:
+        if s.name in ('faccessat', 'access', 'faccessat2') and 'verif-mark:' in s.args:
+            strs = sc.strings_of(s.args)
+            tag = strs[0].decode('utf-8', 'replace').split('verif-mark:', 1)[1]
+            kind, cid = tag.split(':', 1)
+            if kind == 'BEGIN':
+                cur = cid
+                nseg += 1
+                c = cases.get(cid, {})
+                st.case('%s|%s' % (c.get('Name'), c.get('Op')), not c.get('Valid', False))
+                st.count('delimited_calls')
+            else:
+                cur = None
+            continue
+        if cur is None or s.name not in PATH_CALLS or s.unfinished:
+            continue
+        st.count('path_syscalls_inspected')
+        strs = [x.decode('utf-8', 'surrogateescape') for x in sc.strings_of(s.args)]
+        if not strs:
+            continue
+        c = cases.get(cur, {})
+        paths = strs[:2] if s.name.startswith(('rename', 'link', 'symlink')) else strs[:1]
+        for p in paths:
+            if not p.startswith('/'):
+                p = os.path.join(os.path.dirname(root), p)
+            mutating = s.name not in ('openat', 'open') or any(f in s.args for f in MUT_RE)
+            credential = p.endswith('.user') or p.endswith('.admin')
+            if s.name in ('openat', 'open') and not mutating and not credential:
+                continue   # e.g. opening the base directory for fsync
+            if (s.err is None) and not allowed(p):
+                what = 'opens as a credential' if (s.name in ('openat', 'open') and not mutating) else 'mutates'
+                st.violate('c03:syscall-outside-allowed-paths:%s:%s:%s' % (s.name, c.get('Op'), c.get('Class')),
+                           'during %s(%r) the process %s %s' % (c.get('Op'), c.get('Name'), what, p), cur,
+                           {'name': c.get('Name'), 'class': c.get('Class'), 'op': c.get('Op'), 'syscall': s.raw[:400], 'result_reported': c.get('Result')})
+            elif (s.err is not None) and not allowed(p) and not c.get('Valid', False) and s.err not in ('ENOENT', 'ENAMETOOLONG', 'ENOTDIR', 'EINVAL'):
+                st.count('attempted_but_failed_outside_paths')
+    st.sample({'delimited_calls': nseg, 'base': base, 'example': [x.raw[:160] for x in sl if x.name in PATH_CALLS][:6]})
+    shutil.rmtree(st.work, ignore_errors=True)
+    return st.done()
